@@ -30,16 +30,21 @@ import (
 	"math/rand"
 	"sort"
 	"strconv"
+	"net"
 	"strings"
 	"sync"
 	"testing"
 	"testing/synctest"
+	"time"
 
+	coapdtls "github.com/plgd-dev/go-coap/v3/dtls"
 	"github.com/plgd-dev/go-coap/v3/message"
 	"github.com/plgd-dev/go-coap/v3/message/codes"
 	"github.com/plgd-dev/go-coap/v3/message/pool"
 	netclient "github.com/plgd-dev/go-coap/v3/net/client"
 	lpr "github.com/plgd-dev/go-coap/v3/net/client/limitParallelRequests"
+	"github.com/plgd-dev/go-coap/v3/options"
+	"github.com/plgd-dev/go-coap/v3/tcp"
 	tcpclient "github.com/plgd-dev/go-coap/v3/tcp/client"
 	tcpcoder "github.com/plgd-dev/go-coap/v3/tcp/coder"
 	udpclient "github.com/plgd-dev/go-coap/v3/udp/client"
@@ -95,11 +100,12 @@ type wreq struct {
 type cworld struct {
 	tr  string
 	cc  cconn
-	udp *udpclient.Conn
-	us  *mem.UDPSession
-	tcp *tcpclient.Conn
-	tp  *mem.TCPPeer
 	lim *lpr.LimitParallelRequests
+	// the wire, as the scripted peer sees it
+	datagram bool                // datagram coder (udp, dtls) or stream coder (tcp)
+	takeRaw  func() [][]byte     // datagrams / frames written by the connection since the last call
+	sendRaw  func(b []byte)      // deliver one datagram / frame to the connection
+	shutdown func()              // close connection, peer (and server)
 
 	mu        sync.Mutex
 	wire      map[int]*wreq
@@ -252,16 +258,14 @@ func (w *cworld) inject(r *wreq, code codes.Code, pong bool) {
 		m.SetContentFormat(message.TextPlain)
 		m.SetBody(strings.NewReader("r"))
 	}
-	if w.udp != nil {
+	if w.datagram {
 		m.SetMessageID(r.mid)
 		m.SetType(message.Acknowledgement)
 		b, err := m.MarshalWithEncoder(udpcoder.DefaultCoder)
 		if err != nil {
 			panic(err)
 		}
-		if err := w.udp.Process(nil, append([]byte(nil), b...)); err != nil {
-			w.problems = append(w.problems, "process:"+err.Error())
-		}
+		w.sendRaw(append([]byte(nil), b...))
 		return
 	}
 	if pong {
@@ -272,32 +276,29 @@ func (w *cworld) inject(r *wreq, code codes.Code, pong bool) {
 	if err != nil {
 		panic(err)
 	}
-	_ = w.tp.Write(append([]byte(nil), b...))
+	w.sendRaw(append([]byte(nil), b...))
 }
 
 // scan decodes what the connection wrote since the last call.
 func (w *cworld) scan() {
 	var msgs []*pool.Message
-	if w.udp != nil {
-		for _, d := range w.us.TakeSent() {
-			m := pool.NewMessage(context.Background())
-			if _, err := m.UnmarshalWithDecoder(udpcoder.DefaultCoder, d.Data); err == nil {
-				msgs = append(msgs, m)
-			}
+	for _, d := range w.takeRaw() {
+		m := pool.NewMessage(context.Background())
+		var err error
+		if w.datagram {
+			_, err = m.UnmarshalWithDecoder(udpcoder.DefaultCoder, d)
+		} else {
+			_, err = m.UnmarshalWithDecoder(tcpcoder.DefaultCoder, d)
 		}
-	} else {
-		for _, f := range w.tp.TakeFrames() {
-			m := pool.NewMessage(context.Background())
-			if _, err := m.UnmarshalWithDecoder(tcpcoder.DefaultCoder, f); err == nil {
-				msgs = append(msgs, m)
-			}
+		if err == nil {
+			msgs = append(msgs, m)
 		}
 	}
 	w.mu.Lock()
 	defer w.mu.Unlock()
 	for _, m := range msgs {
 		c := m.Code()
-		isPing := (w.udp != nil && c == codes.Empty && m.Type() == message.Confirmable) || (w.udp == nil && c == codes.Ping)
+		isPing := (w.datagram && c == codes.Empty && m.Type() == message.Confirmable) || (!w.datagram && c == codes.Ping)
 		if isPing {
 			if w.pingsSeen < len(w.pingOrder) {
 				w.pingWire[w.pingOrder[w.pingsSeen]] = &wreq{token: append(message.Token(nil), m.Token()...), mid: m.MessageID(), ping: true}
@@ -430,6 +431,141 @@ func (w *cworld) status() cstatus {
 	return st
 }
 
+// dgramEnd is the harness end of a datagram pipe (one Write = one datagram), as in harness/c18/srv_test.go.
+type dgramEnd struct {
+	c    net.Conn
+	mu   sync.Mutex
+	got  [][]byte
+	done chan struct{}
+}
+
+func newDgramEnd(c net.Conn) *dgramEnd {
+	p := &dgramEnd{c: c, done: make(chan struct{})}
+	go func() {
+		defer close(p.done)
+		b := make([]byte, 65536)
+		for {
+			n, err := c.Read(b)
+			if n > 0 {
+				p.mu.Lock()
+				p.got = append(p.got, append([]byte(nil), b[:n]...))
+				p.mu.Unlock()
+			}
+			if err != nil {
+				return
+			}
+		}
+	}()
+	return p
+}
+
+func (p *dgramEnd) take() [][]byte {
+	p.mu.Lock()
+	defer p.mu.Unlock()
+	o := p.got
+	p.got = nil
+	return o
+}
+
+type connAddr string
+
+func (a connAddr) Network() string { return "mem" }
+func (a connAddr) String() string  { return string(a) }
+
+// connect builds the connection under test.
+//
+//	udp, tcp   client.NewConnWithOpts on the in-memory transports, limits written into the Config
+//	tcpcli     the real constructor tcp.Client with options.WithLimitClient(Endpoint)ParallelRequest
+//	tcpsrv     a connection accepted by a real tcp.Server configured with those options
+//	dtlssrv    a connection accepted by a real dtls.Server configured with those options
+//
+// On server-made connections the requests are the ones the SERVER sends to its peer over the accepted connection.
+func (w *cworld) connect(limit, eplimit int64) error {
+	noRunner := options.WithPeriodicRunner(func(func(now time.Time) bool) {})
+	switch w.tr {
+	case "udp":
+		cc, us := mem.NewUDPConn(mem.UDPOpts{Mutate: func(cfg *udpclient.Config) {
+			cfg.LimitClientParallelRequests = limit
+			cfg.LimitClientEndpointParallelRequests = eplimit
+			// RFC 7252 NSTART (outstanding confirmable interactions, default 1) is a separate congestion limit applied
+			// inside the limiter's slot; it is lifted here so that "inside do" and "on the wire" coincide
+			cfg.TransmissionNStart = 64
+		}})
+		w.cc, w.lim, w.datagram = cc, cc.LimitParallelRequests, true
+		w.takeRaw = func() [][]byte {
+			var o [][]byte
+			for _, d := range us.TakeSent() {
+				o = append(o, d.Data)
+			}
+			return o
+		}
+		w.sendRaw = func(b []byte) {
+			if err := cc.Process(nil, b); err != nil {
+				w.problems = append(w.problems, "process:"+err.Error())
+			}
+		}
+		w.shutdown = func() { _ = cc.Close() }
+	case "tcp":
+		cc, tp, err := mem.NewTCPConn(mem.TCPOpts{Mutate: func(cfg *tcpclient.Config) {
+			cfg.LimitClientParallelRequests = limit
+			cfg.LimitClientEndpointParallelRequests = eplimit
+		}})
+		if err != nil {
+			return err
+		}
+		w.cc, w.lim = cc, cc.LimitParallelRequests
+		w.takeRaw, w.sendRaw = tp.TakeFrames, func(b []byte) { _ = tp.Write(b) }
+		w.shutdown = func() { _ = cc.Close(); tp.Close() }
+	case "tcpcli":
+		a, b := net.Pipe()
+		tp := mem.NewTCPPeer(b)
+		cc, err := tcp.Client(a, options.WithLimitClientParallelRequest(limit), options.WithLimitClientEndpointParallelRequest(eplimit),
+			options.WithMessagePool(pool.New(64, 2048)), options.WithErrors(func(error) {}), noRunner, options.WithCloseSocket())
+		if err != nil {
+			tp.Close()
+			return err
+		}
+		w.cc, w.lim = cc, cc.LimitParallelRequests
+		w.takeRaw, w.sendRaw = tp.TakeFrames, func(b []byte) { _ = tp.Write(b) }
+		w.shutdown = func() { _ = cc.Close(); tp.Close() }
+	case "tcpsrv":
+		cc, tp, stop, err := mem.NewTCPConnViaServer("peer", options.WithLimitClientParallelRequest(limit), options.WithLimitClientEndpointParallelRequest(eplimit))
+		if err != nil {
+			return err
+		}
+		w.cc, w.lim = cc, cc.LimitParallelRequests
+		w.takeRaw, w.sendRaw = tp.TakeFrames, func(b []byte) { _ = tp.Write(b) }
+		w.shutdown = func() { _ = cc.Close(); stop() }
+	case "dtlssrv":
+		ch := make(chan *udpclient.Conn, 1)
+		s := coapdtls.NewServer(options.WithLimitClientParallelRequest(limit), options.WithLimitClientEndpointParallelRequest(eplimit),
+			options.WithTransmission(64, 2*time.Second, 4), // NSTART lifted, see "udp"
+			options.WithMessagePool(pool.New(64, 2048)), options.WithErrors(func(error) {}), noRunner,
+			options.WithOnNewConn(func(cc *udpclient.Conn) { ch <- cc }))
+		l := mem.NewListener()
+		served := make(chan struct{})
+		go func() { _ = s.Serve(l); close(served) }()
+		a, b := net.Pipe()
+		end := newDgramEnd(b)
+		l.Push(&mem.AddrConn{Conn: a, Local: connAddr("server"), Remote: connAddr("peer")})
+		synctest.Wait()
+		stop := func() { s.Stop(); _ = end.c.Close(); <-end.done; <-served }
+		var cc *udpclient.Conn
+		select {
+		case cc = <-ch:
+		default:
+			stop()
+			return errors.New("the dtls server did not accept the connection")
+		}
+		w.cc, w.lim, w.datagram = cc, cc.LimitParallelRequests, true
+		w.takeRaw, w.sendRaw = end.take, func(b []byte) { _, _ = end.c.Write(b) }
+		w.shutdown = func() { _ = cc.Close(); stop() }
+	default:
+		return fmt.Errorf("unknown transport %q", w.tr)
+	}
+	return nil
+}
+
 func runConnHistory(t *testing.T, tr string, limit, eplimit int64, lines []cline, idle bool, next func(st cstatus) (cline, bool)) (string, cstatus) {
 	var b strings.Builder
 	var st cstatus
@@ -437,26 +573,9 @@ func runConnHistory(t *testing.T, tr string, limit, eplimit int64, lines []cline
 	synctest.Test(t, func(t *testing.T) {
 		w := &cworld{tr: tr, wire: map[int]*wreq{}, inflight: map[int]bool{}, pingWire: map[int]*wreq{}, kind: map[int]string{}, pathOf: map[int]int{},
 			cancelFn: map[int]context.CancelFunc{}, cancelled: map[int]bool{}, returned: map[int]string{}, obs: map[int]netclient.Observation{}, obsUsed: map[int]bool{}}
-		if tr == "udp" {
-			w.udp, w.us = mem.NewUDPConn(mem.UDPOpts{Mutate: func(cfg *udpclient.Config) {
-				cfg.LimitClientParallelRequests = limit
-				cfg.LimitClientEndpointParallelRequests = eplimit
-				// RFC 7252 NSTART (outstanding confirmable interactions, default 1) is a separate congestion limit applied
-				// inside the limiter's slot; it is lifted here so that "inside do" and "on the wire" coincide
-				cfg.TransmissionNStart = 64
-			}})
-			w.cc, w.lim = w.udp, w.udp.LimitParallelRequests
-		} else {
-			var err error
-			w.tcp, w.tp, err = mem.NewTCPConn(mem.TCPOpts{Mutate: func(cfg *tcpclient.Config) {
-				cfg.LimitClientParallelRequests = limit
-				cfg.LimitClientEndpointParallelRequests = eplimit
-			}})
-			if err != nil {
-				fmt.Fprintf(&b, " ; panic | conn-error_%v", err)
-				return
-			}
-			w.cc, w.lim = w.tcp, w.tcp.LimitParallelRequests
+		if err := w.connect(limit, eplimit); err != nil {
+			fmt.Fprintf(&b, " ; panic | conn-error_%s", strings.ReplaceAll(err.Error(), " ", "_"))
+			return
 		}
 		synctest.Wait()
 		w.scan() // the stream connection's own CSM
@@ -514,10 +633,7 @@ func runConnHistory(t *testing.T, tr string, limit, eplimit int64, lines []cline
 			fn()
 		}
 		w.mu.Unlock()
-		_ = w.cc.Close()
-		if w.tp != nil {
-			w.tp.Close()
-		}
+		w.shutdown()
 		synctest.Wait()
 	})
 	return b.String(), st
